@@ -65,6 +65,8 @@ class Spec:
         self.trusted = False       # assumed contract (never verified): listed in evidence
         self.frame_props = ()
         self.lemma_fns = []
+        self.ghost_defs = []       # definitions of ghost (spec) functions assumed while the body is verified
+        self.defs = []             # definitional clauses (ghost result functions): assumed at call sites, never verified
 
     def requires(self, name, fn):
         self.pre.append(Clause(name, fn))
@@ -83,6 +85,20 @@ class Spec:
         """assumed contract: used at call sites, never verified (listed in every evidence file that uses it)"""
         self.trusted = True
         self.trusted_why = why
+        return self
+
+    def determined_by(self, name, fn, props=()):
+        """definitional clause `result == ghost_fn(arguments)`: names the function's result as a (ghost, uninterpreted)
+        function of its arguments.  It is an *assumption* (the call is deterministic and depends on nothing but the
+        values of its arguments); it is assumed at call sites, never verified against the body, and listed in the
+        evidence."""
+        self.defs.append(Clause(name, fn, props))
+        return self
+
+    def ghost_definition(self, name, fn):
+        """defining equations of a ghost spec function (primitive recursion: a conservative extension), as hypotheses
+        of every obligation of this function (loop invariants included): fn(a) -> formula"""
+        self.ghost_defs.append((name, fn))
         return self
 
     def uses_lemma(self, name, fn):
@@ -127,6 +143,8 @@ class Spec:
         for c in self.post:
             if "reports" in c.fn.__code__.co_varnames[:c.fn.__code__.co_argcount]:
                 continue        # clauses about the ghost log are carried by the `files` effect instead
+            st = st.assume(c.fn(a, res))
+        for c in self.defs:
             st = st.assume(c.fn(a, res))
         return res, st
 
